@@ -427,6 +427,14 @@ def run_one(seed: int, tier: str, index: int) -> Dict[str, Any]:
         steps = sim.steps
         sig = seeds.digest(sim.switch_sites) if len(sim.decisions) > 1 else None
         digest = seeds.digest([m.events, sim.decisions])
+        if sim.real_blocks:
+            # The tree under test blocks in real locks: when the blocked thread
+            # wakes up is the kernel's decision, not the simulator's, so this run
+            # is judged (every op against its solitary run) but is not repeatable
+            # and is left out of the determinism comparison.
+            digest = "not-repeatable:real-lock"
+            sig = None
+            st["B_runs_not_repeatable_real_lock"] = 1
         sample = {"part": "B", "strategy": sc["strategy"], "opcode": sc["opcode"], "programs": {k: v[:4] for k, v in sc["programs"].items()}, "steps": sim.steps, "switches": len(sim.decisions) - 1, "first_switch_sites": sim.switch_sites[:6]} if index % 1500 == 0 else None
     else:
         sc = gen_a(rng, srng, tier)
